@@ -131,7 +131,9 @@ def run(prog, chk):
             ngss += 1
             claim = [unparse(a) for a in c.args[1:2]]
             alts = ff.expand_text(c.args[1], n, depth=2) if len(c.args) > 1 else []
-            ok = bool(mic) and ff.dominated([n], guard_nodes=mic)
+            micids = set(x.id for x in mic)
+            # "returned normally": the check's exception edge (a handler that swallows the failure) does not count
+            ok = bool(mic) and ff.dominated([n], guard_edge=lambda s_, lab, d_: s_ in micids and lab not in ("exc", "raise"))
             # receiver of ssh_check_mic must be usable: a None context must not skip the check
             chk.ob("R2.gss-claim-needs-mic-check", "%s:%s" % (f.qual, dotted(c.func).rsplit(".", 1)[1]), ok, ff.where(n),
                    "gss_authenticated=%s passed to the application only after ssh_check_mic returned normally" % (alts or claim))
